@@ -439,7 +439,7 @@ Definition run_one : M bool :=
       dom v <- pop_raw; dom vp <- hderef v;
       match vp with
       | VVec vid => dom l <- vec_get vid; dom s <- get_vm;
-                    dom _ <- vec_set vid (l ++ [acc s]); dom _ <- set_acc vp; ret false
+                    dom _ <- vec_set vid (l ++ [acc s]); dom _ <- set_acc v; ret false
       | _ => fail E_OTHER
       end
   | OClosureAcc =>
